@@ -27,9 +27,8 @@ def evCode : TEvent → List CodeMsg
   | _ => []
 
 mutual
-  /-- the gettext calls of the template code reachable by rendering, as far as extraction is
-      concerned: all EXPR / EXEC events; the interpolated attributes of START events outside
-      excluded elements (inside: finding C19-excluded-attr-code); for a plain message directive
+  /-- the gettext calls of the template code: all EXPR / EXEC events and the interpolated
+      attributes of all START events, excluded elements included; for a plain message directive
       the attributes and expressions of its content -/
   def codeSub (cfg : Cfg) : TEvent → List CodeMsg
     | .sub ds body =>
@@ -37,25 +36,15 @@ mutual
           match ds, body with
           | [.msg _], .start _ a :: rest => attrsCode a ++ rest.dropLast.flatMap evCode
           | _, _ => []
-        else codeList cfg 0 body
+        else codeList cfg body
     | _ => []
-  def codeList (cfg : Cfg) : Nat → List TEvent → List CodeMsg
-    | _, [] => []
-    | skip, e :: es =>
-        let skip1 := if skip = 0 then 0 else
-          match e with
-          | .start _ _ => skip + 1
-          | .end_ _ => skip - 1
-          | _ => skip
-        match e with
-        | .start tag attrs =>
-            if skip1 = 0 then
-              if excluded cfg tag attrs then codeList cfg 1 es else attrsCode attrs ++ codeList cfg 0 es
-            else codeList cfg skip1 es
-        | .expr _ cm => cm ++ codeList cfg skip1 es
-        | .exec cm => cm ++ codeList cfg skip1 es
-        | .sub ds body => codeSub cfg (.sub ds body) ++ codeList cfg skip1 es
-        | _ => codeList cfg skip1 es
+  def codeList (cfg : Cfg) : List TEvent → List CodeMsg
+    | [] => []
+    | .start _ attrs :: es => attrsCode attrs ++ codeList cfg es
+    | .expr _ cm :: es => cm ++ codeList cfg es
+    | .exec cm :: es => cm ++ codeList cfg es
+    | .sub ds body :: es => codeSub cfg (.sub ds body) ++ codeList cfg es
+    | _ :: es => codeList cfg es
 end
 
 def codeMessage (c : CodeMsg) : Message := ⟨some c.func, c.val, []⟩
@@ -190,7 +179,7 @@ mutual
     | .exec _, _, _, _, _ => ⟨[], rfl, by simp [codeSub, HasCode.nil]⟩
     | .other _, _, _, _, _ => ⟨[], rfl, by simp [codeSub, HasCode.nil]⟩
   theorem code_list (cfg : Cfg) : ∀ (s : List TEvent), okMsgList s = true → ∀ (skip : Nat) (st : Bool) (cs xs : List Str),
-      ∃ ms, exList cfg st cs xs skip s = .ok ms ∧ HasCode ms (codeList cfg skip s)
+      ∃ ms, exList cfg st cs xs skip s = .ok ms ∧ HasCode ms (codeList cfg s)
     | [], _, skip, st, cs, xs => ⟨[], by simp [exList, pure, Except.pure], by simp [codeList, HasCode.nil]⟩
     | e :: es, h, skip, st, cs, xs => by
         simp only [okMsgList, Bool.and_eq_true] at h
@@ -200,7 +189,9 @@ mutual
           cases e with
           | start tag attrs =>
             obtain ⟨ms, hms, hc⟩ := ihs (k + 2) st cs xs
-            exact ⟨ms, by simp [exList, hms], by simpa [codeList] using hc⟩
+            refine ⟨extractAttrs cfg false attrs ++ ms, by simp [exList, hms, bind, Except.bind, pure, Except.pure], ?_⟩
+            simp only [codeList]
+            exact HasCode.append (hasCode_attrs cfg false attrs) hc
           | end_ tag =>
             obtain ⟨ms, hms, hc⟩ := ihs k st cs xs
             exact ⟨ms, by simp [exList, hms], by simpa [codeList] using hc⟩
@@ -210,18 +201,18 @@ mutual
           | expr i cm =>
             obtain ⟨ms, hms, hc⟩ := ihs (k + 1) st cs xs
             refine ⟨codeMessages cm ++ ms, by simp [exList, hms, bind, Except.bind, pure, Except.pure], ?_⟩
-            simp only [codeList, Nat.add_one_ne_zero, ↓reduceIte]
+            simp only [codeList]
             exact HasCode.append (hasCode_codeMessages cm) hc
           | exec cm =>
             obtain ⟨ms, hms, hc⟩ := ihs (k + 1) st cs xs
             refine ⟨codeMessages cm ++ ms, by simp [exList, hms, bind, Except.bind, pure, Except.pure], ?_⟩
-            simp only [codeList, Nat.add_one_ne_zero, ↓reduceIte]
+            simp only [codeList]
             exact HasCode.append (hasCode_codeMessages cm) hc
           | sub dirs body =>
             obtain ⟨ms, hms, hc⟩ := ihs (k + 1) st cs xs
             obtain ⟨ms0, hms0, hc0⟩ := code_sub cfg (.sub dirs body) h.1 false cs xs
             refine ⟨ms0 ++ ms, by simp only [exList]; simp [hms, hms0, bind, Except.bind, pure, Except.pure], ?_⟩
-            simp only [codeList, Nat.add_one_ne_zero, ↓reduceIte]
+            simp only [codeList]
             exact HasCode.append hc0 hc
           | other l =>
             obtain ⟨ms, hms, hc⟩ := ihs (k + 1) st cs xs
@@ -231,10 +222,12 @@ mutual
           | start tag attrs =>
             by_cases hx : excluded cfg tag attrs = true
             · obtain ⟨ms, hms, hc⟩ := ihs 1 st cs xs
-              exact ⟨ms, by simp [exList, hx, hms], by simpa [codeList, hx] using hc⟩
+              refine ⟨extractAttrs cfg false attrs ++ ms, by simp [exList, hx, hms, bind, Except.bind, pure, Except.pure], ?_⟩
+              simp only [codeList]
+              exact HasCode.append (hasCode_attrs cfg false attrs) hc
             · obtain ⟨ms, hms, hc⟩ := ihs 0 st cs xs
               refine ⟨extractAttrs cfg st attrs ++ ms, by simp [exList, hx, hms, bind, Except.bind, pure, Except.pure], ?_⟩
-              simp only [codeList, ↓reduceIte, hx, Bool.false_eq_true]
+              simp only [codeList]
               exact HasCode.append (hasCode_attrs cfg st attrs) hc
           | end_ tag =>
             obtain ⟨ms, hms, hc⟩ := ihs 0 st cs xs
@@ -256,18 +249,18 @@ mutual
           | expr i cm =>
             obtain ⟨ms, hms, hc⟩ := ihs 0 st cs xs
             refine ⟨codeMessages cm ++ ms, by simp [exList, hms, bind, Except.bind, pure, Except.pure], ?_⟩
-            simp only [codeList, ↓reduceIte]
+            simp only [codeList]
             exact HasCode.append (hasCode_codeMessages cm) hc
           | exec cm =>
             obtain ⟨ms, hms, hc⟩ := ihs 0 st cs xs
             refine ⟨codeMessages cm ++ ms, by simp [exList, hms, bind, Except.bind, pure, Except.pure], ?_⟩
-            simp only [codeList, ↓reduceIte]
+            simp only [codeList]
             exact HasCode.append (hasCode_codeMessages cm) hc
           | sub dirs body =>
             obtain ⟨ms, hms, hc⟩ := ihs 0 st cs xs
             obtain ⟨ms0, hms0, hc0⟩ := code_sub cfg (.sub dirs body) h.1 st cs xs
             refine ⟨ms0 ++ ms, by simp only [exList]; simp [hms, hms0, bind, Except.bind, pure, Except.pure], ?_⟩
-            simp only [codeList, ↓reduceIte]
+            simp only [codeList]
             exact HasCode.append hc0 hc
           | other l =>
             obtain ⟨ms, hms, hc⟩ := ihs 0 st cs xs
@@ -276,7 +269,7 @@ end
 
 /-- **the gettext calls of template code are extracted** -/
 theorem code_calls_extracted (cfg : Cfg) (s : TStream) (h : okMsgList s = true) :
-    ∃ ms, extract cfg s = .ok ms ∧ ∀ c ∈ codeList cfg 0 s, codeMessage c ∈ ms :=
+    ∃ ms, extract cfg s = .ok ms ∧ ∀ c ∈ codeList cfg s, codeMessage c ∈ ms :=
   code_list cfg s h 0 cfg.extractText [] []
 
 end Genshi.I18n
